@@ -6,6 +6,13 @@
 #include "lin.h"
 #include <map>
 
+#ifdef PSTLAB_ORATIO_VERIF
+namespace oratio_verif
+{
+  struct access;
+}
+#endif
+
 namespace smt
 {
   class rdl_value_listener;
@@ -13,6 +20,9 @@ namespace smt
   class rdl_theory : public theory
   {
     friend class rdl_value_listener;
+#ifdef PSTLAB_ORATIO_VERIF
+    friend struct ::oratio_verif::access;
+#endif
 
   public:
     SMT_EXPORT rdl_theory(sat_core &sat, const size_t &size = 16);
@@ -65,6 +75,9 @@ namespace smt
     class rdl_distance final
     {
       friend class rdl_theory;
+#ifdef PSTLAB_ORATIO_VERIF
+      friend struct ::oratio_verif::access;
+#endif
 
     public:
       rdl_distance(const lit &b, const var &from, const var &to, const inf_rational &dist) : b(b), from(from), to(to), dist(dist) {}
